@@ -3,6 +3,7 @@ import SciVerif.Lemmas.C18c
 import SciVerif.Lemmas.C18d
 import SciVerif.Lemmas.C18e
 import SciVerif.Lemmas.C18g
+import SciVerif.Lemmas.C18h
 
 /-!
 # C18 — DIP expressions compute unit-aware results under the documented priorities
@@ -310,11 +311,11 @@ theorem C18_numeric_units {K : Type} [Field K] (av : A → QV K)
 
 /-! ### templates -/
 
-/-- Full statement: the round trip below also for holes that carry a slice `[a:b,c]`.  Not proved:
-    the model's `parseSlice` splits the slice text with `String.splitOn`, for which no lemmas are
-    available; proving it would need a list-based re-implementation of the splitter (a change of the
-    model, out of scope of a proof-only round).  Checked by the driver on every generated template
-    of every run. -/
+/-- Full statement: the round trip below also for holes that carry a slice `[a:b,c]` — a non-empty
+    list of entries `(a, b)` with optional bounds, rendered `a:b`, `a:`, `:b`, `:` and `n` for `(n, n)`,
+    bounds in decimal (`toString`), entries joined by commas.  Proved as `C18_template` (the model's
+    `parseSlice` splits the slice body with the list splitter `List.splitOn`; the scan of every
+    generated template is still compared with the generated pieces on every run). -/
 def C18_template_statement : Prop :=
   ∀ ps : List Piece, (∀ p ∈ ps, PieceOKS p) →
     scanTemplate ((ps.flatMap renderPieceS).length + 1) (ps.flatMap renderPieceS) = ps
@@ -328,7 +329,30 @@ theorem C18_template_partial (ps : List Piece) (hp : ∀ p ∈ ps, PieceOK p) :
     scanTemplate ((renderPieces ps).length + 1) (renderPieces ps) = ps :=
   scan_render ps hp _ (by omega)
 
+/-- **The slice parser inverts the slice renderer**: for every non-empty list of entries with
+    arbitrary optional bounds, `parseSlice` applied to `[e1,e2,…]` followed by any text returns exactly
+    the entries and the text behind the closing bracket (decimal numerals of any size read back to
+    the same number, `n` alone read as `(n, n)`, missing bounds stay missing). -/
+theorem C18_template_slice (l : List (Option Nat × Option Nat)) (hl : l ≠ []) (more : List Char) :
+    parseSlice (renderSlice l ++ more) = some (l, more) :=
+  parseSlice_render l hl more
+
+/-- **Templates, full statement** (`C18_template_statement`): scanning the rendering of any sequence
+    of text characters (other than `{`) and holes `{{ref}[slice]fmt}` — `ref` any non-empty text
+    without `}`, `slice` absent or any non-empty list of entries with optional bounds, `fmt` absent
+    or `:[0-9.]*[sdfeb]+` — returns exactly that sequence: every hole is found with its reference,
+    its slice entries and its format; the second `part_slice` call of the code finds nothing more. -/
+theorem C18_template : C18_template_statement :=
+  fun ps hp => scan_renderS ps hp _ (by omega)
+
 /-! Non-vacuity: concrete well-formed trees / hypotheses. -/
+/-- `{{?mat}[1,:3,2:,:,0:12]:.2e}` is a piece of the full template statement -/
+example : PieceOKS (.hole "?mat".toList (some [(some 1, some 1), (none, some 3), (some 2, none), (none, none),
+    (some 0, some 12)]) (some ":.2e".toList)) :=
+  ⟨by decide, by decide, fun l hl => by cases hl; simp, fun f hf => by
+    cases hf; exact ⟨⟨".2".toList, "e".toList, rfl, by decide, by decide, by decide⟩⟩⟩
+example : renderPieceS (.hole "?mat".toList (some [(some 1, some 1), (none, some 3), (some 2, none), (none, none),
+    (some 0, some 12)]) (some ":.2e".toList)) = "{{?mat}[1,:3,2:,:,0:12]:.2e}".toList := by decide +kernel
 example : (E.bin "add" (.lit (1 : Nat)) (.bin "mul" (.pre "sub" (.lit 2)) (.fn2 "powb" (.par (.bin "sub" (.lit 3)
     (.bin "pow" (.lit 4) (.lit 5)))) (.lit 2)))).WF numGrammar := by simp [E.WF, numGrammar, E.top]
 example : (E.bin "or" (.lit (0 : Nat)) (.bin "and" (.pre "not" (.bin "le" (.lit 1) (.lit 2))) (.par (.lit 3)))).WF
